@@ -47,15 +47,23 @@ Print Assumptions C14_continue_if_refines.
 
 (* (how the loops consume the signals and the depth: C03_cloop_refines / C03_rloop_refines) *)
 
-(* excluded, with witnesses: a control instruction inside a for-else branch (the reference
-   semantics reports an error, the interpreter lets the enclosing loop take it), a lazybreak
-   directly inside a bound tag at template level; and, justifying the invariant's non-negative
-   pending depth, a context with a negative one (which no run can build any more: a break takes the
-   maximum with the pending depth) *)
-Theorem C14_break_in_for_else_disagrees :
-  mout t_break_in_else ctx_new = Some (B "ac"%string, None) /\ rout t_break_in_else ctx_new = (B "a"%string, SErr EBreak).
-Proof. exact F3_break_in_for_else. Qed.
-Print Assumptions C14_break_in_for_else_disagrees.
+(* a control instruction inside a for-else branch names the ENCLOSING loops: the inner loop hands
+   the signal on, in the interpreter and (now) in the reference semantics alike *)
+Theorem C14_break_in_for_else_agrees :
+  mout t_break_in_else ctx_new = Some (B "ac"%string, None) /\ rout t_break_in_else ctx_new = (B "ac"%string, SNone).
+Proof. exact break_in_for_else_agrees. Qed.
+Print Assumptions C14_break_in_for_else_agrees.
+
+(* the depth form: break 2 in the else branch of an inner loop without iterations ends both
+   enclosing loops (the outer one at its next iteration check, as with any break 2) *)
+Theorem C14_break2_in_for_else_agrees :
+  mout t_break2_in_else ctx_new = Some (B "abz!"%string, None) /\ rout t_break2_in_else ctx_new = (B "abz!"%string, SNone).
+Proof. exact break2_in_for_else_agrees. Qed.
+Print Assumptions C14_break2_in_for_else_agrees.
+
+(* still excluded, with witnesses: a lazybreak directly inside a bound tag at template level; and,
+   justifying the invariant's non-negative pending depth, a context with a negative one (which no
+   run can build any more: a break takes the maximum with the pending depth) *)
 
 Theorem C14_lazybreak_in_region_at_top_disagrees :
   mout t_lazy_region ctx_new = Some ([], Some ELBreak) /\ rout t_lazy_region ctx_new = (B "A"%string, SLazy).
